@@ -365,3 +365,14 @@ func richSubs(r *rng, o richOpts) *astisub.Subtitles {
 	}
 	return s
 }
+
+// withNilItems returns the list with a nil element inserted at position k mod (len+1) and another one at the end:
+// Items is a public []*Item; the writers skip nil elements (the writer models take the list without them:
+// Kit.Chk.somes, write_*_items_c), so the model input stays the encoding of the list without nil
+func withNilItems(items []*astisub.Item, k int) []*astisub.Item {
+	p := k % (len(items) + 1)
+	o := append([]*astisub.Item{}, items[:p]...)
+	o = append(o, nil)
+	o = append(o, items[p:]...)
+	return append(o, nil)
+}
